@@ -257,7 +257,7 @@ def run(ctx):
     if ctx.shard == 1 % ctx.nshards:
         _float_patterns(ctx)
     _dataitems(ctx)
-    n = 10000 if ctx.quick else 120000
+    n = 10000 if ctx.quick else 600000
     _mutants(ctx, n // 2)
     for i in range(n):
         r = i % 8
